@@ -162,6 +162,14 @@ func main() {
 		run.Assumptions = append(run.Assumptions, "end-to-end part: fakemilvus is the downstream; a drop re-issued after a KILL is tolerated (counted), quiescence = sentinel rows accepted on every live stream by the current incarnation")
 	}
 	vf.CollectRaces(run)
+	if p := os.Getenv("C16M_DUMP"); p != "" && *fProp == "C16M" {
+		// the manager part of C16 is merged into the unit rig's run (one evidence file for C16)
+		if err := run.Dump(p); err != nil {
+			fmt.Fprintln(os.Stderr, "C16M_DUMP:", err)
+			os.Exit(70)
+		}
+		os.Exit(0)
+	}
 	os.Exit(run.Finish(vf.Out()))
 }
 
@@ -279,6 +287,12 @@ func conflictingPairing(c *Case) bool {
 	if c.SrcChanNum == c.DstChanNum {
 		return false
 	}
+	return placementConflict(c)
+}
+
+// placementConflict is the same test without the exemption of equal counts (with equal counts a conflicting
+// placement is served by forwarding packs between handlers; the C16 manager part still needs to know about it).
+func placementConflict(c *Case) bool {
 	larger, smaller := c.SrcChanNum, c.DstChanNum
 	if smaller > larger {
 		larger, smaller = smaller, larger
